@@ -105,7 +105,7 @@ func TestVerifC20BrokerHTTPSoak(t *testing.T) {
 			time.Sleep(3 * time.Millisecond)
 		}
 	}()
-	if os.Getenv("VERIF_C20_GEOIP_RELOAD") == "1" {
+	if os.Getenv("VERIF_C20_GEOIP_RELOAD") != "0" {
 		bg.Add(1)
 		go func() { // what main()'s SIGHUP goroutine does: reload the geoip databases while polls are served
 			defer bg.Done()
